@@ -49,6 +49,8 @@ func main() {
 		os.Exit(cmdReplay(os.Args[2:]))
 	case "selftest":
 		os.Exit(cmdSelftest(os.Args[2:]))
+	case "manifest":
+		os.Exit(cmdManifest())
 	case "list":
 		for _, id := range checkIDs() {
 			fmt.Println(id)
